@@ -244,7 +244,8 @@ class LevelSystem(_Base):
 
 class DepthSystem(_Base):
     name = "depth"
-    description = "fixed document H1..H6 (plus the same nested in a quote) x heading_anchors 0..7"
+    description = ("fixed document H1..H6 (plus the same nested in a quote, and the same after an include with :heading-offset: 1/2 "
+                   "of a file with one heading) x heading_anchors 0..7")
 
     def bounds(self):
         return {"anchors": 8}
@@ -254,17 +255,26 @@ class DepthSystem(_Base):
 
     def cases(self):
         for k in range(8):
-            for nest in ("top", "quote"):
+            for nest in ("top", "quote", "after-include-1", "after-include-2"):
                 yield [k, nest]
 
     def run(self, case):
         k, nest = case
         pre = "> " if nest == "quote" else ""
         text = "".join(f"{pre}{'#' * l} t{l}\n{pre}\n" for l in range(1, 7))
-        doc, warn = docutils_doctree(text, {"myst_heading_anchors": k})
+        exp = [f"t{l}" if l <= k else None for l in range(1, 7)]
+        if nest.startswith("after-include"):
+            # the offset belongs to the included file only: the headings after the directive keep their own depth
+            off = int(nest[-1])
+            d = self.scratch()
+            (d / "hinc.md").write_text("# ia\n\ninc para\n")
+            text = f"```{{include}} hinc.md\n:heading-offset: {off}\n```\n\n" + text
+            exp = ["ia" if 1 + off <= k else None] + exp
+            doc, warn = docutils_doctree(text, {"myst_heading_anchors": k}, source_path=str(d / "index.md"))
+        else:
+            doc, warn = docutils_doctree(text, {"myst_heading_anchors": k})
         hs = headings(doc)
         got = [s for _, s, _, _ in hs]
-        exp = [f"t{l}" if l <= k else None for l in range(1, 7)]
         viol = []
         if got != exp:
             viol.append(violation("depth", {"clause": "depth", "anchors": k, "nest": nest}, f"heading_anchors={k}: slugs {got}, expected {exp}", text=text))
